@@ -48,6 +48,8 @@ def run(ctx):
     RL.check_initialisation(ctx, 'R20.6', T)
     check_global_writes(ctx)
     check_closure_cells(ctx)
+    ctx.rule('R20.9', 'lexer reconfiguration followed by default_initialization() gives the default lexer again (configuration methods interpreted)', floor=1)
+    RL.check_reconfiguration(ctx, 'R20.9')
     # positive controls for zero-count rules
     controls(ctx)
 
